@@ -2,8 +2,8 @@ import Driver.Util
 import LentilVerif.Model.Fourier
 import LentilVerif.Model.FourierOut
 /-! Model driver ops for C01 (and the Float instantiation of the Fourier model reused by C05/C19):
-`c01.dft2`, `c01.idft2` run `Lentil.dft2`/`Lentil.idft2` at `K = Drv.CF`, `R = Float`; `c01.out` runs the buffer model
-`Lentil.dft2Out` (outcome tag and, when written, the buffer's contents); `c01.roundtrip` runs `idft2 ∘ dft2` with optional forward
+`c01.dft2`, `c01.idft2` run `Lentil.dft2`/`Lentil.idft2` at `K = Drv.CF`, `R = Float`; `c01.out` / `c01.iout` run the buffer models
+`Lentil.dft2Out` / `Lentil.idft2Out` (outcome tag and, when written, the buffer's contents); `c01.roundtrip` runs `idft2 ∘ dft2` with optional forward
 shift / offset and inverse shift. -/
 open Lean Lentil Drv
 namespace Ops.C01
@@ -85,6 +85,24 @@ def handle (op : String) (j : Json) : Option (R Json) :=
       let b : OutBuf CF := ⟨dt, bshape.toList, bstr.toList, ← getBool bj "writeable", junk⟩
       match dft2Out f al[0]! al[1]! sh[0]! sh[1]! sf[0]! sf[1]! off[0]! off[1]! un (some b) with
       | .ok r (some a) isBuf => pure (okJ [("outcome", Json.str "ok"), ("is_buffer", Json.bool isBuf), ("F", cfArrToJson r), ("B", cfArrToJson a)])
+      | o => pure (okJ [("outcome", Json.str o.tag)])
+  | "c01.iout" => some do
+      -- `idft2(F, …, out=buf)` in the buffer model (`Lentil.idft2Out`): outcome tag and, when written, result and buffer contents
+      let f ← cfArrOfJson j
+      let al ← getFloats j "alpha"; let sh ← getInts j "oshape"
+      let sf ← getFloats j "shift"
+      let un ← getBool j "unitary"
+      let bj ← j.getObjVal? "buf"
+      let dt ← match (← getStr bj "dtype") with
+        | "complex128" => pure BufDtype.complex128 | "complex64" => pure BufDtype.complex64
+        | "clongdouble" => pure BufDtype.clongdouble | "float64" => pure BufDtype.float64
+        | "int64" => pure BufDtype.int64 | "object" => pure BufDtype.object
+        | d => throw s!"c01.iout: unknown buffer dtype {d}"
+      let bshape ← getInts bj "shape"; let bstr ← getInts bj "strides"
+      let junk : Arr CF := { s0 := bshape.getD 0 0, s1 := bshape.getD 1 0, get := fun _ _ => ⟨7.5, -2.5⟩ }
+      let b : OutBuf CF := ⟨dt, bshape.toList, bstr.toList, ← getBool bj "writeable", junk⟩
+      match idft2Out f al[0]! al[1]! sh[0]! sh[1]! sf[0]! sf[1]! un (some b) with
+      | .ok r (some a) isBuf => pure (okJ [("outcome", Json.str "ok"), ("is_buffer", Json.bool isBuf), ("F", cfArrToJson (freeze r)), ("B", cfArrToJson (freeze a))])
       | o => pure (okJ [("outcome", Json.str o.tag)])
   | _ => none
 
